@@ -315,6 +315,8 @@ class World:
             f = ftab[fname]
             if isinstance(enc, dict) and "pow10" in enc:
                 kw[fname] = 10 ** enc["pow10"]  # an int whose decimal rendering Python refuses (str() raises ValueError)
+            elif isinstance(enc, dict) and "surr" in enc:
+                kw[fname] = "a" + chr(int(enc["surr"], 16)) + "b"  # a lone surrogate (what os.fsdecode hands out for undecodable bytes)
             elif isinstance(enc, dict) and "raw" in enc:
                 kw[fname] = enc["raw"]
             elif isinstance(enc, dict) and "raw_tuple" in enc:
@@ -1606,6 +1608,13 @@ class Gen:
         op: dict[str, Any] = {"op": "construct", "spec": spec, "out": self.out()}
         if self.cfg["prop"] == "C10" and not self.cfg["rtc"] and spec.get("c") in ("Seq", "SeqPlus", "Deco") and r.random() < 0.3:
             spec["as_list"] = True
+        if self.cfg.get("surrogates") and r.random() < 0.3:
+            # property strings with a lone surrogate: the library either refuses the construction (the pinned tree
+            # does: the digest input is strict UTF-8) or has to tell such values apart like any other strings
+            cls = r.choice(["LeafA", "LeafB"])
+            v = r.choice([{"surr": "d800"}, {"surr": "dc80"}, {"surr": "dcff"}, "a?b", "a\ufffdb"])
+            self.w.stats.probes["construction_with_lone_surrogate"] += 1
+            return {"op": "construct", "spec": {"c": cls, "p": {"a": v}, "ch": {}, "o": self.cfg["origins"][0]}, "out": self.out(), **({"expect": "fail"} if isinstance(v, dict) else {})}
         if self.cfg["faults"] and r.random() < 0.03:
             # a construction that fails while a property value is being rendered for the digests (after other
             # properties were rendered already): an int too long for str()
@@ -2167,6 +2176,7 @@ def make_config(rseed: int, prop: str, tier: str, faults: bool) -> dict[str, Any
         "trace_logging": (tl := r.random() < 0.12),
         "debug_logger": tl and r.random() < 0.6,
         "exotic_origins": exotic,
+        "surrogates": prop == "C01" and r.random() < 0.08,
         "ser_faults": prop in ("C03", "C10", "C04"),
     }
 
